@@ -178,6 +178,12 @@ class C30(Prop):
                 if typ == "string[]":
                     job[nm] = [rng.choice(["plain", "v1", "a.b/c", "x=1", "10"]) for _ in job[nm]]
         args = [self._binding(rng, shell, names, arg=True) for _ in range(rng.choice([0, 0, 1, 1, 2, 3]))]
+        if kind == "item":
+            # with bindings on items the ORDER differs from cwltool's (known): a raw ; | & asked for by shellQuote: false
+            # would then cut the line at different places, which says nothing -- no shellQuote: false in these cases
+            for b in args + [i["bind"] for i in inputs if i["bind"]]:
+                if b["quote"] is False:
+                    b["quote"] = None
         # a valueFrom that evaluates to an EMPTY array is kept out: cwltool then emits the bare prefix, StreamFlow
         # (and the CWL text: "empty arrays add nothing") nothing -- see design/notes/C30.md
         for b in args + [i["bind"] for i in inputs if i["bind"]]:
@@ -387,9 +393,14 @@ class C30(Prop):
             sa = [dec(a) for a in sf["argv"]] if "argv" in sf else None
             pieces = self._array_pieces(c)
             hostile = {p for p in pieces if not _safe(p)}
+            raw_items = {_repr(x) for i in c["inputs"] if c["shell"] and i["bind"] and i["item"] is None
+                         and i["type"].endswith("[]") and i["bind"]["quote"] is False and i["bind"]["isep"] is None
+                         and not i["bind"]["vf"] for x in (c["job"].get(i["name"]) or [])}
             if sa is None:
                 if hostile:        # any unquoted metacharacter (newline, quote, <, ;, ...) can make the sh line fail
                     return "sf-fails/bound-items-array-prefix-unquoted"
+                if any(re.search(r"""['"\\`<>()]|\$[({]""", x) for x in raw_items):
+                    return "sf-fails/array-shellquote-false-items"
             else:
                 k = 0
                 while k < min(len(ra), len(sa)) and ra[k] == sa[k]:
@@ -398,9 +409,6 @@ class C30(Prop):
                     return "argv/bound-items-array-prefix-unquoted"
                 # ShellCommandRequirement + shellQuote: false written on an ARRAY's binding: cwltool still quotes the items
                 # (they are bound one by one with a fresh binding), StreamFlow leaves them unquoted as asked
-                raw_items = {_repr(x) for i in c["inputs"] if c["shell"] and i["bind"] and i["item"] is None
-                             and i["type"].endswith("[]") and i["bind"]["quote"] is False and i["bind"]["isep"] is None
-                             and not i["bind"]["vf"] for x in (c["job"].get(i["name"]) or [])}
                 if k < len(ra) and ra[k] in raw_items and not _safe(ra[k]):
                     return "argv/array-shellquote-false-items"
                 # bindings on array items: same arguments in another order (cwltool's key starts with the item index),
